@@ -69,6 +69,13 @@ def binding_cases():
         ("def o = <*m = fn(self) if TRUE then do def x = 5; x end else 0*>; def x = 1; [o->m(), x]", ('text', "[5, 1]")),
         ("def mk() fn() if TRUE then do def k = 0; k = k + 1; k end else 0; def a = mk(); [a(), a(), a()]", ('text', "[1, 1, 1]")),
         ("def x = 1; def f() do def x = 2; x end; [f(), x]", ('text', "[2, 1]")),
+        # a loop variable inside a function that has the name of an outer variable hides nothing once the loop is over: a later assignment
+        # to that name in the function updates the OUTER variable
+        ("def g = 1; def f() do for g in [5, 6] do 0 end; g = 99; 0 end; f(); g", ('text', "99")),
+        ("def g = 1; def f() do for g in [5, 6] do 0 end; g end; [f(), g]", ('text', "[1, 1]")),
+        ("def g = 1; def f() do for [g, h_] in [[5, 6]] do 0 end; g = g + 1; 0 end; f(); f(); g", ('text', "3")),
+        ("def g = 1; def f() do do for g in [5] do error 'x' end catch all 0 end; g = 7; 0 end; f(); g", ('text', "7")),
+        ("def g = 1; def mk() fn() do for g in 'ab' do 0 end; g = g + 10; g end; def c = mk(); [c(), c(), g]", ('text', "[11, 21, 21]")),
     ]
     return cases
 
